@@ -101,14 +101,14 @@ def _spec(sysm, lin, q0, u0):
     return np.asarray(A).view(np.ndarray), f, rhs_c
 
 
-def _cic(mode, friction):
+def _cic(mode, friction, nF=2):
     def c(k):
         if not k.sym:
             raise K.Reject("symbolic only")
         k.covers(base.consistent_initial_conditions, base.compute_I_F)
         lin = Lin(k)
         # the frictional variant is kept small (one velocity, one bilateral constraint): the block structure is covered by the frictionless one
-        sysm = SysStub(k, friction=friction, sizes=dict(nq=1, nu=1, nla_gamma=0, nla_c=0, nla_tau=1) if friction else None)
+        sysm = SysStub(k, friction=friction, sizes=dict(nq=1, nu=1, nla_gamma=0, nla_c=0, nla_tau=1, nla_F=nF) if friction else None)
         opts = SolverOptions()
         opts.fixed_point_atol = S.var("fp_atol")
         k.assume(opts.fixed_point_atol > 0)
@@ -206,8 +206,10 @@ def _cic(mode, friction):
 
 
 for _mode in ("entry", "iter", "exhausted"):
-    for _fr in (False, True):
-        contract("C16", f"consistent_initial_conditions[friction={_fr}]/{_mode}", samples=0, replayable=False, timeout=60, max_paths=4000)(_cic(_mode, _fr))
+    contract("C16", f"consistent_initial_conditions[friction=False]/{_mode}", samples=0, replayable=False, timeout=60, max_paths=4000)(_cic(_mode, False))
+    # one friction direction in the quick tier, the Coulomb disk (two directions) in the thorough tier
+    contract("C16", f"consistent_initial_conditions[friction=True,directions=1]/{_mode}", samples=0, replayable=False, timeout=60, max_paths=4000)(_cic(_mode, True, 1))
+    contract("C16", f"consistent_initial_conditions[friction=True,directions=2]/{_mode}", samples=0, replayable=False, timeout=60, max_paths=6000, tiers=("thorough",))(_cic(_mode, True, 2))
 
 
 # --------------------------------------------------------------------------- bounded native mechanisms
